@@ -101,7 +101,13 @@ class FrameReader:
         if t in ("ref", "refmut"):
             return self.ev(n[1], p)
         if t == "cast":
-            return self.ev(n[4], p)
+            res = self.ev(n[4], p)
+            from .intconv import INT_TYPES
+            if n[2] in INT_TYPES and n[3] in INT_TYPES and INT_TYPES[n[3]][0] < INT_TYPES[n[2]][0]:
+                for q, v in res:
+                    if v == ("op",):
+                        q.notes.append(("opcode-narrowed", f"{n[2]} as {n[3]}"))
+            return res
         if t == "lit":
             return [(p, ("lit", n[2]))]
         if t == "repeat":
@@ -129,6 +135,10 @@ class FrameReader:
                 h = self.helper.get(gp) or self.helper.get(path)
                 vals = [self.ev(a, p)[0][1] for a in args]
                 p.final_call = last
+                if "len_arg" in h:
+                    bv = vals[h["len_arg"]] if h["len_arg"] < len(vals) else None
+                    p.passed = bv[1] if isinstance(bv, tuple) and bv and bv[0] == "vec" else None
+                    return [(p, None)]
                 sizev = vals[h["size_arg"]] if h["size_arg"] < len(vals) else None
                 p.passed = ("sub", sizev, h["k"]) if sizev is not None else None
                 return [(p, None)]
@@ -147,6 +157,13 @@ class FrameReader:
                 return [(p, ("op",))]
             if last in ("Ok", "Some"):
                 return self.ev(args[0], p) if args else [(p, None)]
+            if path.startswith("crate::"):
+                # an unknown crate function: still look at its arguments (casts of the opcode, reads) for their effects
+                for a_ in args:
+                    try:
+                        self.ev(a_, p)
+                    except Exception:  # noqa
+                        pass
             if had_try and path.startswith("crate::") and p.consumed > 0 and p.body_len is None:
                 # `f(..)?` on a crate function that is neither a transport read nor the body decoder: its error leaves the function
                 # here, after the header was taken from the stream and before the body was
@@ -426,10 +443,24 @@ def helper_summary(g, crate, fn):
                 a = H.strip(args[1])
                 while H.tag(a) == "cast":
                     a = H.strip(a[4])
+                if H.tag(a) == "local":
+                    # a local bound once by `let`: look through it
+                    lets = [st for st in H.walk(fn["hir"]) if H.tag(st) == "let" and H.tag(st[1]) == "bind" and st[1][1] == a[1] and st[2] is not None]
+                    if len(lets) == 1:
+                        a = H.strip(lets[0][2])
+                        while H.tag(a) == "cast":
+                            a = H.strip(a[4])
                 if H.is_mcall(a) and H.mcall(a)["name"] == "saturating_sub":
                     k = H.lit_int(H.mcall(a)["args"][0])
                     nm = H.local_name(H.mcall(a)["recv"])
                     names = [p[1] for p in fn["params"]]
                     if nm in names and k is not None:
                         return {"size_arg": names.index(nm), "k": k}
+                if H.is_mcall(a) and H.mcall(a)["name"] == "len":
+                    # the decoder is told the length of the buffer it is handed: read_body(buf, buf.len() as u32)
+                    nm = H.local_name(H.strip_refs(H.mcall(a)["recv"]))
+                    names = [p[1] for p in fn["params"]]
+                    b0 = H.local_name(H.strip_refs(args[0]))
+                    if nm in names and nm == b0:
+                        return {"len_arg": names.index(nm)}
     return None
